@@ -166,6 +166,10 @@ def r_interp(ctx, model):
     C11.r_helpers(p, model)
 
 
+def r_nodes(ctx, model):
+    C11.r_node_selection(ctx, model)
+
+
 def r_masks(ctx, model):
     C01.r_mask(ctx, model)
     p = Proxy(ctx, {"x"})
@@ -397,5 +401,6 @@ RULES = [
     ("R12.5", "every schema-valid interpolator name is dispatched (= R11.5)", r_dispatch),
     ("R12.6", "unpack arity of qha's fit at every call site", r_arity),
     ("R12.7", "Gamma acoustic entries (0/0 in every Bose factor) are overwritten on a copy before the reduction (= R01.7)", r_gamma_store),
+    ("R12.9", "node selection of the interpolators raises nothing and yields distinct nodes for every volume count 2..16 and order 1..12 (= R11.9)", r_nodes),
     ("R12.8", "main-path well-formedness: definite assignment (X1) and defined names (X4) in every function", r_wellformed),
 ]
